@@ -74,6 +74,23 @@ pub struct Scn {
     /// population scenario: instead of a few long connections, a long succession of short complete ones
     #[serde(default)]
     pub churn: Option<Churn>,
+    /// crowd scenario: thousands of simultaneously tracked connections whose addresses come from a structured family
+    #[serde(default)]
+    pub crowd: Option<Crowd>,
+}
+
+/// `n` connections (SYN with a timestamp option each) that are all tracked at once (capacity >= n), between
+/// addresses of one structured family - the kind a hostile sender, a NAT pool or an address plan produces and a
+/// table keyed by a folded or truncated address cannot tell apart.
+#[derive(Clone, Debug, Serialize, Deserialize)]
+pub struct Crowd {
+    pub n: usize,
+    /// 0: upper half XOR lower half constant; 1: upper + lower constant; 2: lower half constant; 3: upper half
+    /// constant (ordinary); 4: only the two middle words vary; 5: IPv4, only the second octet pair varies
+    pub family: u8,
+    pub seed: u64,
+    /// both directions? (SYN+ACK back from the same fixed server)
+    pub with_replies: bool,
 }
 
 /// `n_values` distinct sets of header / hello values; each is used by `repeats` consecutive-ish connections
@@ -224,7 +241,15 @@ impl Prop for C11 {
                 payload_seed: r.next_u64(),
             });
         }
-        let scn = Scn { kind, cap, conns, gap_ns: *r.pick(&[1_000u64, 100_000, 5_000_000]), idle_every: *r.pick(&[0usize, 0, 500, 2000]), idle_ns: *r.pick(&[21_000_000_000u64, 61_000_000_000, 601_000_000_000]), churn: None };
+        let scn = Scn { kind, cap, conns, gap_ns: *r.pick(&[1_000u64, 100_000, 5_000_000]), idle_every: *r.pick(&[0usize, 0, 500, 2000]), idle_ns: *r.pick(&[21_000_000_000u64, 61_000_000_000, 601_000_000_000]), churn: None, crowd: None };
+        // one scenario in eight is a crowd: every connection tracked at once, addresses from a structured family
+        if r.chance(1, 8) {
+            let n = match tier {
+                Tier::Quick => r.urange(6000, 12000),
+                Tier::Thorough => r.urange(10_000, 40_000),
+            };
+            return Scn { kind: *r.pick(&[Kind::Tcp, Kind::Tcp, Kind::Unified, Kind::Http, Kind::Tls]), cap: n + 64, conns: vec![], crowd: Some(Crowd { n, family: *r.pick(&[0u8, 0, 1, 1, 2, 3, 4, 5]), seed: r.next_u64(), with_replies: r.chance(1, 2) }), ..scn };
+        }
         // one scenario in twelve is a population scenario
         if r.chance(1, 12) {
             let n_values = match tier {
@@ -239,6 +264,9 @@ impl Prop for C11 {
     fn run(s: &Scn, st: &mut RunStats) -> Result<(), Violation> {
         if let Some(ch) = &s.churn {
             return run_churn(s, ch, st);
+        }
+        if let Some(cr) = &s.crowd {
+            return run_crowd(s, cr, st);
         }
         clock::arm(1_700_000_000_000);
         let cfg = SutCfg::new(s.kind, s.cap);
@@ -371,6 +399,10 @@ impl Prop for C11 {
 
     fn shrink(s: &Scn) -> Vec<Scn> {
         let mut out = vec![];
+        if s.crowd.is_some() {
+            // not shrunk: the verdict rests on a time ratio, and a smaller crowd only moves it towards the margin
+            return out;
+        }
         if let Some(ch) = &s.churn {
             if ch.n_values > 700 {
                 let mut x = s.clone();
@@ -541,5 +573,85 @@ fn run_churn(s: &Scn, ch: &Churn, st: &mut RunStats) -> Result<(), Violation> {
     st.sim_ns = clock::mono_ns();
     st.nontrivial = results as usize >= total / 2;
     st.probe_n("population_connections", total as u64);
+    Ok(())
+}
+
+fn thread_cpu_ns() -> u64 {
+    let mut ts = libc::timespec { tv_sec: 0, tv_nsec: 0 };
+    // SAFETY: plain syscall filling a stack struct
+    unsafe {
+        libc::clock_gettime(libc::CLOCK_THREAD_CPUTIME_ID, &mut ts);
+    }
+    ts.tv_sec as u64 * 1_000_000_000 + ts.tv_nsec as u64
+}
+
+fn crowd_client(cr: &Crowd, k: usize, r: &mut Rng) -> Endpoint {
+    let x = r.next_u64() | 1;
+    let c: u64 = 0x2001_0db8_5a5a_0000 ^ cr.seed.rotate_left(17);
+    let port = 40_000;
+    let v6 = |hi: u64, lo: u64| Endpoint { ip: std::net::IpAddr::V6(std::net::Ipv6Addr::from(((hi as u128) << 64) | lo as u128)), port };
+    match cr.family {
+        0 => v6(x, x ^ c),
+        1 => v6(x, c.wrapping_sub(x)),
+        2 => v6(x, c),
+        3 => v6(0x2001_0db8_0000_0000 | (k as u64 >> 16), x),
+        4 => v6(0x2001_0db8_0000_0000 | (x & 0xffff_ffff), (x & 0xffff_ffff_0000_0000) | 1),
+        _ => Endpoint::v4(10, (k >> 8) as u8, k as u8, 7, port),
+    }
+}
+
+/// Crowd scenario: the time one packet costs must not grow with the number of connections already tracked.
+/// Time is thread CPU time, compared between the first and the last thousand packets with a very wide margin
+/// (a table that degenerates into one chain costs dozens to hundreds of times more at the end than at the start; a healthy one costs the same, so the test is: last block > 8 x max(first block, 1 ms)).
+fn run_crowd(s: &Scn, cr: &Crowd, st: &mut RunStats) -> Result<(), Violation> {
+    clock::arm(1_700_000_000_000);
+    let cfg = SutCfg::new(s.kind, s.cap);
+    let mut sut = Sut::new(&cfg).map_err(|e| Violation::new("harness-error", "", e))?;
+    let mut r = Rng::new(cr.seed);
+    let h = crate::gen::tcp::Host { profile: 0, ts_hz: 1000, ts_base: 99, ttl: 64 };
+    let server = match cr.family {
+        5 => Endpoint::v4(10, 200, 0, 1, 443),
+        _ => Endpoint { ip: std::net::IpAddr::V6(std::net::Ipv6Addr::from(0x2001_0db8_ffff_0000_0000_0000_0000_0001u128)), port: 443 },
+    };
+    // frames are built first so that only the analyzer is timed
+    let mut frames: Vec<Vec<u8>> = Vec::with_capacity(cr.n * 2);
+    for k in 0..cr.n {
+        let c = crowd_client(cr, k, &mut r);
+        frames.push(pkt::frame(&crate::gen::tcp::syn(&h, c, server, 1000 + k as u32, k as u64 * 1_000_000), Framing::Ethernet));
+        if cr.with_replies {
+            frames.push(pkt::frame(&crate::gen::tcp::syn_ack(&h, c, server, 5000, 1000 + k as u32, k as u64 * 1_000_000, 1), Framing::Ethernet));
+        }
+    }
+    let block = 250.min(frames.len() / 4).max(1);
+    let mut first_ns = 0u64;
+    let mut last_ns = 0u64;
+    let total = frames.len();
+    let mut t0 = thread_cpu_ns();
+    for (i, f) in frames.iter().enumerate() {
+        clock::advance_ns(1_000);
+        let out = sut.deliver(f);
+        drop(out);
+        st.packets += 1;
+        if i + 1 == block {
+            let t = thread_cpu_ns();
+            first_ns = t - t0;
+        }
+        if i + 1 == total - block {
+            t0 = thread_cpu_ns();
+        }
+    }
+    last_ns = last_ns.max(thread_cpu_ns() - t0);
+    st.evals = total as u64;
+    st.fault_n("crowd_of_simultaneously_tracked_connections", cr.n as u64);
+    st.ev_u64(cr.family as u64);
+    st.ev_u64(cr.n as u64);
+    st.probe_n("crowd_last_block_over_first_block_percent", last_ns.saturating_mul(100) / first_ns.max(1));
+    st.nontrivial = true;
+    st.sim_ns = clock::mono_ns();
+    // a generous floor under the first block (timer granularity, cold caches) and a factor no healthy table comes near
+    let floor = first_ns.max(1_000_000);
+    if last_ns > 8 * floor {
+        return Err(Violation::new("work-grows-with-tracked-connections", format!("{}:family{}", s.kind.name(), cr.family), format!("{} connections tracked at once (address family {}): the first {} packets took {} us of CPU, the last {} took {} us", cr.n, cr.family, block, first_ns / 1000, block, last_ns / 1000)));
+    }
     Ok(())
 }
